@@ -18,6 +18,9 @@ ASSUMPTIONS = ["abs(x) >= 0; margin_requirement, multiplier, prices are non-nega
 
 
 def run(ck, an, tier):
+    from rules import C14
+    from sa.report import Renamed
+    C14.s5(Renamed(ck, "C14:"), an)      # exchange[contract] is that contract's own book (keys by symbol / static hashing)
     ledger.marking_equations(ck, an, {"equations", "margin", "guards"})
     ledger.transact_equations(ck, an, {"margin", "equations", "order"})
     ledger.valuation_formulas(ck, an, {"nlv", "weights"})
